@@ -13,7 +13,7 @@ CLAIMS = {
  'C06': ('exploration', '4/C06', 'seeded histories of stream operations compared in lock-step with a (bits, pos) reference machine; truncation events cut codewords and fixed fields; values are checked against the library\'s own whole-value interpretation of the consumed bits',
          'Interpretations themselves are trusted (C02/C10/C11 not applicable); msb0 only for exp-Golomb.'),
  'C08': ('exploration', '4/C08', 'object built by a route (text, bytes+window, iterable / generator / one-shot iterator, big- and little-endian bitarray, array, BytesIO, slice/copy, cache hit, file by name/handle with offset/length on a simulated file system with complement slack bytes, incl. 2 MiB files with markers across every power-of-two boundary) and an in-memory twin built from the observed bits receive the same public call; results, exceptions and final contents compared after every event; unlink/append/close/caches as environment events',
-         'Little-endian host only. The twin is built from the observed bits: whether the right window was selected is C17/C15.'),
+         'Little-endian host only. The twin is built from the observed bits; since the third session every source-window route must also build exactly the window of its source (a refusal or other bits is a difference between routes).'),
  'C09': ('exploration', '4/C09', 'two private replicas of the package in one process: W keeps its caches (evicted/resized by injected faults, >256 keys with Zipf reuse), C has every lru_cache cleared and every plain module/class-level container restored before every call; the same construct/parse/pack/unpack/Dtype/Array/option event goes to both and observations must agree; end-of-run restoration check',
          'The cold result is taken as the reference (not independently checked for correctness).'),
  'C12': ('exploration', '4/C12', 'two private replicas: L toggles lsb0 between calls and generator steps, M stays msb0 and receives bit-reversed operands with identical position arguments; results un-mirrored and compared; whole-value interpretations compared across toggles',
